@@ -670,12 +670,27 @@ def i_effectful_helper(c):
     return lines
 
 
+def i_multiline_literal_block(c):
+    """A multi-line literal whose lines are indented less than the statement it is in, followed by statements of the same block: laying the
+    statement out again must neither change the literal nor move what follows it to another block."""
+    r = c.r
+    f, x, t_ = c.name("lit"), c.name("x"), c.name("text")
+    q = r.choice(["'''", '"""'])
+    body = r.choice(["a\nb\n", "first   \n   \n  second  ", "\n\n\nafter", "col0\n        deep\n  two", "tab\there\n\tindented with a tab\t\n", "one\ttab"])
+    prefix = r.choice(["", "", "r", "f"])
+    filler = "some_function_name(argument_number_one, argument_number_two, argument_number_three, argument_number_four)" if r.random() < 0.5 else "len"
+    lit = f"{prefix}{q}{body}{q}"
+    assign = f"{t_} = {lit}" if filler == "len" else f"{t_} = [{lit}, str({filler!r})]"
+    lines = [f"def {f}({x}):"] + ind([f"if {x}:"] + ind([assign, f"print(repr({t_}))"]) + [r.choice(["else:\n        print('other')", "print('after if')"]), f"return {x}"])
+    return lines + ["", "", f"print({f}(1))", f"print({f}(0))"]
+
+
 IDIOMS = {f.__name__[2:]: f for f in [
     i_list_append_loop, i_dict_loop, i_dict_literal_updates, i_collection_add_update, i_if_return_bool, i_redundant_else, i_swap_if_else, i_early_return, i_early_continue,
     i_filter_map_lambda, i_for_filter, i_comprehension_forms, i_literal_functions, i_unused_and_pointless, i_dead_code, i_singleton_compare, i_boolean_logic, i_staticmethod_class,
     i_unconventional_class, i_duplicate_functions, i_imports, i_overused_constant, i_assign_return, i_context_manager, i_raise_from, i_zip_enumerate, i_defaultdict,
     i_move_before_loop, i_nested_loops, i_logging, i_negated_compare, i_lambda_redundant, i_commented_code, i_while_counter, i_invalid_escape, i_string_ops, i_numpy,
-    i_const_iter_loop, i_loop_carried, i_constrained_range, i_effectful_helper,
+    i_const_iter_loop, i_loop_carried, i_constrained_range, i_effectful_helper, i_multiline_literal_block,
 ]}
 NEEDS = {"numpy": "numpy"}
 
